@@ -1108,17 +1108,33 @@ def check_C03(ctx, deep=False):
             if r["n_best"] != 1:
                 ctx.fail("not-exactly-one-bestmove", pos=pl, go=g, count=r["n_best"])
             mv = r["best"].split(" ")[1] if " " in r["best"] else ""
+            if mv == "0000":
+                # the null move: right exactly when the position reached by the engine's previous
+                # answers has no legal move (C03 is then silent, C08 demands this answer); decided
+                # below against the SPEC's move list of that position
+                seq += ["nullmove"]
+                break
             if not re.fullmatch(r"[a-h][1-8][a-h][1-8][qrbn]?", mv):
                 ctx.fail("bestmove-ill-formed", pos=pl, go=g, line=r["best"])
                 break
             seq += ["pick " + mv, "gen all"]
-        index.append((plan, out, len(ops), len(seq)))
+        null_at_end = seq[-1] == "nullmove"
+        if null_at_end:
+            seq = seq[:-1]
+        index.append((plan, out, len(ops), len(seq), null_at_end))
         ops += seq
     res = C.run_ops(ops) if ops else []
-    for plan, out, start, ln in index:
+    for plan, out, start, ln, null_at_end in index:
         pl, gos = plan
         rr = res[start:start + ln]
         legal = None
+        if null_at_end:
+            last = rr[-1]
+            last_legal = [m for m, _ in C.succ_list(last["S"])] if last["S"] != "-" else None
+            if last_legal:
+                ctx.fail("null-move-in-non-terminal-position", pos=pl, gos=gos, legal=last_legal[:50])
+            else:
+                ctx.count("sessions_ending_in_terminal_position")
         for r in rr:
             if r["op"] == "gen all":
                 legal = [m for m, _ in C.succ_list(r["S"])] if r["S"] != "-" else None
